@@ -107,7 +107,7 @@ func (c *Ctx) instrOnlyReads(in ssa.Instruction, g *ssa.Global) bool {
 						if c.paramOnlyRead(sc, a, x.Common()) {
 							continue
 						}
-					} else if pxPureCallee(sc) || pureExternal[sc.String()] {
+					} else if pxPureCallee(sc) || pureExternal[sc.String()] || readOnlyStd(sc) {
 						continue
 					}
 				}
